@@ -346,12 +346,24 @@ Fixpoint num_of (base : N) (dig : N -> option N) (acc : N) (ds : str) : option N
 
 (* [66] CharRef, [68] EntityRef restricted to the predefined entities (4.6);
    a character reference must denote a Char (WFC: Legal Character) *)
+Definition legal_char (o : option N) : option N :=
+  match o with Some c => if is_xml_char c then Some c else None | None => None end.
+
 Definition ref_value (name : str) : option N :=
-  let legal (o : option N) := match o with Some c => if is_xml_char c then Some c else None | None => None end in
   match name with
-  | 35 :: 120 :: ((_ :: _) as ds) => legal (num_of 16 hex_digit 0 ds)
-  | 35 :: ((_ :: _) as ds) => legal (num_of 10 dec_digit 0 ds)
-  | _ => assoc name predefined
+  | [] => None
+  | c1 :: r1 =>
+    if c1 =? HASH then
+      match r1 with
+      | [] => None
+      | c2 :: r2 =>
+        if c2 =? LOWX then match r2 with
+                           | [] => None
+                           | _ => legal_char (num_of 16 hex_digit 0 r2)
+                           end
+        else legal_char (num_of 10 dec_digit 0 r1)
+      end
+    else assoc name predefined
   end.
 
 Definition cdata_open_tail : str := [33; 91; 67; 68; 65; 84; 65; 91].      (* ![CDATA[ *)
